@@ -447,6 +447,55 @@ func c14(c *Ctx) {
 				"the writer returns success on the branch where the writer it delegated to reported an error: the caller believes the entry jump (or the restored bytes) were written when they were not")
 		})
 	}
+	// ---- W5 page-start helpers: the mask is ^(pagesize-1) exactly
+	for _, f := range p.FuncsIn(memPkg) {
+		if !isPageStartFn(f) {
+			continue
+		}
+		okMask := true
+		for _, ret := range returnsOf(f) {
+			bo := retResult(ret, 0).(*ssa.BinOp)
+			m := bo.Y
+			if bo.Op == token.AND {
+				un, ok := m.(*ssa.UnOp)
+				if !ok || un.Op != token.XOR {
+					okMask = false
+					continue
+				}
+				m = un.X
+			}
+			for {
+				if cv, ok := m.(*ssa.Convert); ok {
+					m = cv.X
+					continue
+				}
+				break
+			}
+			sub, ok := m.(*ssa.BinOp)
+			one, isC := int64(0), false
+			if ok {
+				one, isC = constInt(sub.Y)
+			}
+			if !ok || sub.Op != token.SUB || !isC || one != 1 {
+				okMask = false
+				continue
+			}
+			ps := sub.X
+			for {
+				if cv, ok := ps.(*ssa.Convert); ok {
+					ps = cv.X
+					continue
+				}
+				break
+			}
+			cl, ok := ps.(*ssa.Call)
+			if !ok || !strings.HasSuffix(calleeName(cl.Common()), ".Getpagesize") {
+				okMask = false
+			}
+		}
+		r.Check(okMask, "C14.W5", "page-start mask of "+shortName(f), p.Pos(f.Pos()), "addr &^ (pagesize-1)",
+			"the page-start helper does not clear exactly the low bits below the page size (mask is not ^(Getpagesize()-1)): the protection change starts at an address that is not the start of the page holding the write")
+	}
 	// ---- W5 page loops
 	for _, f := range p.FuncsIn(memPkg) {
 		pcs := protCallsIn(p, f, nil)
